@@ -59,12 +59,12 @@ extern "C" void h_encode()
     const int64_t x = nondet_i64();
     VASSUME(x != std::numeric_limits<int64_t>::min());
     const std::vector<unsigned char> v = CScriptNum::serialize(x);
-    VASSERT(v.size() <= 9, "at most 9 bytes");
+    VASSERT(v.size() <= 8, "at most 8 bytes");
     uint8_t b[9] = {0}; const int len = (int)v.size();
     for (int i = 0; i < 9; i++) if (i < len) b[i] = v[i];
     bool ok = false;
     for (int l = 0; l <= 9; l++) if (l == len) ok = ref_decode(b, l) == x && ref_minimal(b, l) && (l > 0) == (x != 0);
     VASSERT(ok, "serialize yields the minimal sign-magnitude encoding of the value");
     verif_observe((uint64_t)len);
-    VWITNESS(len == 9, "9-byte encoding reachable"); VWITNESS(len == 0, "zero encodes as the empty string"); VWITNESS(len == 1 && x < 0, "negative one-byte"); VREACH("end");
+    VWITNESS(len == 8, "8-byte encoding reachable (9 bytes would need |x| >= 2^63, i.e. only the excluded INT64_MIN)"); VWITNESS(len == 0, "zero encodes as the empty string"); VWITNESS(len == 1 && x < 0, "negative one-byte"); VREACH("end");
 }
